@@ -124,6 +124,12 @@ known('C06', 'C06|MonarchButterflyOptimization|IndexError|optimization_step|list
 known('C01', 'C01|KrillHerdOptimization|continuous-nan',
       'Krill Herd: the 0/0 of the C05 finding (ties) is reported when the objective maps NaN to an ordinary cost (step objective)',
       'KrillHerdOptimization, cont3z, step objective, seed 1')
+known('C06', 'C06|ForestOptimizationAlgorithm|ValueError|local_seeding|Cannot take a larger sample than populat',
+      'Forest local_seeding samples local_seeding_changes distinct dimensions: any accepted value above the task dimension crashes',
+      'ForestOptimizationAlgorithm, local_seeding_changes=11 on a 3-D task')
+known('C06', 'C06|SpottedHyenaOptimization|ValueError|evolve|Cannot take a larger sample than populat',
+      'Spotted Hyena samples n_trials distinct hyenas: n_trials >= population_size is accepted and crashes',
+      'SpottedHyenaOptimization, n_trials=20, population 20')
 
 FIXED = [
     "fixed: property=C07 0d03759 Task.seed typed float: every seeded run raised TypeError in np.random.seed",
